@@ -350,8 +350,7 @@ class C01(Check):
             os.remove(self.outpath)
         if wrote and ok:
             ok = False
-            R.viol('detect-writes-file:%s' % self.col_tag(frame['cols']),
-                   'no-detection-file', extra, sub)
+            R.viol('detect-writes-file', 'no-detection-file', extra, sub)
         return 'ok' if ok else 'bad'
 
     # --------------------------------------------------------------------- E1
